@@ -137,7 +137,18 @@ def comment_raw_rules(ctx: Ctx, rid: str) -> None:
             pass
     wrap = repo.func("lexer:Lexer.wrap")
     s = ast.unparse(wrap.node)
-    ctx.check("if token in ignored_tokens:\n            continue" in s and "elif token in (TOKEN_RAW_BEGIN, TOKEN_RAW_END):\n            continue" in s, "wrap:dropped", "lexer:Lexer.wrap", "dropped tokens", "wrap must drop ignored tokens and raw_begin/raw_end", wrap.loc())
+    # every token wrap hands on passed both drop tests (written as one test, as an if / elif
+    # chain of `continue`s, or as separate guards)
+    RAWT = "token in (TOKEN_RAW_BEGIN, TOKEN_RAW_END)"
+    drop_ok = True
+    ys_w = [y for y in ast.walk(wrap.node) if isinstance(y, ast.Yield)]
+    conts = [c_ for c_ in ast.walk(wrap.node) if isinstance(c_, ast.Continue)]
+    for y in ys_w:
+        at_y = astq.guard_atoms(wrap.node, y)
+        ign = ("token in ignored_tokens", False) in at_y
+        raw_ = (RAWT, False) in at_y or any((RAWT, True) in astq.guard_atoms(wrap.node, c_) and c_.lineno < y.lineno for c_ in conts)
+        drop_ok = drop_ok and ign and raw_
+    ctx.check(bool(ys_w) and drop_ok, "wrap:dropped", "lexer:Lexer.wrap", "dropped tokens", "wrap must drop ignored tokens and raw_begin/raw_end", wrap.loc())
     sp = repo.func("parser:Parser.subparse")
     ctx.check("nodes.TemplateData(token.value, lineno=token.lineno)" in ast.unparse(sp.node), "parser:TemplateData", "parser:Parser.subparse", "data -> TemplateData", "data tokens must become TemplateData nodes", sp.loc())
     vo = repo.func("compiler:CodeGenerator.visit_Output")
